@@ -432,7 +432,7 @@ def check_L1_short_records(S, p):
         recs = []
         for _ in range(rng.randint(3, 8)):
             full = "".join(str(rng.choice([0, 1, 2, 0, 3])) for _ in range(ns))
-            recs.append(full if rng.random() < 0.6 else full[:rng.randrange(0, ns)])
+            recs.append(full if rng.random() < 0.5 else (full[:rng.randrange(0, ns)] if rng.random() < 0.7 else full + "".join(str(rng.choice([0, 1, 2])) for _ in range(rng.randint(1, 5)))))
         reqs.append({"op": "site_hist", "samples": samples, "map": E.map_json(smap), "project": None if project is None else [m + 1 for m in project],
                      "records": recs, "fresh": False, "after_error": "continue"})
     res = harness.both_builds(S, "C11", reqs, "short_records")
